@@ -228,6 +228,20 @@ def run_one(ch, cfg):
             "post_exit_uihb": {"mode": 0x03, "delay": 0.2, "silence": "read_err"}}
     w = World(ch, device_cfg=dcfg, v1=v1)
     w.bring_up()
+    # history: the same manager has already handled 0..2 other requests (valid or not); the verdict
+    # on a JSON value must not depend on what was asked before
+    nprev = [0, 0, 1, 2][ch.draw(4, "earlier-requests")]
+    for _ in range(nprev):
+        pdoc = base_request(ch, ch.pick(cmds + (["sign"] * 4 if not v1 else ["sign"]), "earlier.command"), v1)
+        if ch.draw(3, "earlier.mutated") == 1:
+            pdoc, _k = mutate(ch, pdoc)
+        try:
+            pline = json.dumps(pdoc)
+        except (TypeError, ValueError):
+            pline = "null"
+        w.request_line(pline.encode())
+        if w.shutdown_requested:
+            return _res([], w, ("earlier-request-stopped-manager",), False, {"earlier_stopped": 1}, {})
     prepare_state(w, ch, state)
     viol = []
     if w.shutdown_requested:
@@ -276,7 +290,7 @@ def run_one(ch, cfg):
     else:
         if observed[0] == "rejected" and (type(code) is not int or code not in ref[1]):
             viol.append(("spec/wrong-code:%s" % tag, desc))
-    st = ("v1" if v1 else "v5", cmd, tuple(sorted(set(kinds))), ref[0], state)
+    st = ("v1" if v1 else "v5", cmd, tuple(sorted(set(kinds))), ref[0], state, nprev)
     return _res(viol, w, st, ref[0] != "may",
                 {"ref." + ref[0]: 1, "obs." + observed[0]: 1, "state." + state: 1},
                 {"mode": "v1" if v1 else "v5", "request": line[:400], "mutations": kinds,
